@@ -4,6 +4,7 @@ import (
 	"fmt"
 	"strings"
 
+	"github.com/frankkopp/FrankyGo/internal/movegen"
 	"github.com/frankkopp/FrankyGo/internal/position"
 	"github.com/frankkopp/FrankyGo/internal/types"
 
@@ -61,7 +62,7 @@ func checkFenString(s string, mustRoundTrip bool, res *RunResult) {
 	}
 	if p2.ZobristKey() != p.ZobristKey() {
 		// the reparsed position must be the same position
-		res.count("fen_key_differs_after_roundtrip", 1)
+		res.addViolation("C16", "fen_roundtrip_changes_key", fmt.Sprintf("%q is accepted and prints %q; parsed back that is a position with another hash key", clip(s, 200), f1))
 	}
 	res.count("fen_accepted", 1)
 	// a well-formed position answers the basic board queries (attack and
@@ -101,14 +102,54 @@ func CheckFenHalf(sc *Scenario, res *RunResult) {
 	for i := 0; i < 40; i++ {
 		base := Corpus[rng.Intn(len(Corpus))]
 		p := rules.MustFen(base)
-		Playout(p, rng.Intn(30), rng)
+		ms := Playout(p, rng.Intn(30), rng)
 		legal := p.Fen()
 		checkFenString(legal, p.Sane(), res)
+		if p.Sane() && rules.MustFen(base).Sane() {
+			checkFenOfPlayedPosition(base, ms, legal, res)
+		}
 		d, _ := DamageFen(legal, rng)
 		checkFenString(d, false, res)
 		if rng.Chance(0.3) {
 			d2, _ := DamageFen(d, rng)
 			checkFenString(d2, false, res)
 		}
+	}
+}
+
+// checkFenOfPlayedPosition: a position reached by playing moves in the engine
+// and the position parsed from its FEN output are the same position - same
+// FEN and same hash key (the key is what repetition detection, the
+// transposition table and the book identify a position by).
+func checkFenOfPlayedPosition(base string, ms []string, want string, res *RunResult) {
+	defer func() {
+		if r := recover(); r != nil {
+			res.addViolation("C16", "fen_parser_panic", fmt.Sprintf("playing %v from %q panicked: %v", ms, base, r))
+		}
+	}()
+	pm, err := position.NewPositionFen(base)
+	if err != nil || pm == nil {
+		return
+	}
+	mg := movegen.NewMoveGen()
+	for _, m := range ms {
+		mv := mg.GetMoveFromUci(pm, m)
+		if !mv.IsValid() {
+			return // decided elsewhere (move legality is not this property)
+		}
+		pm.DoMove(mv)
+	}
+	f := pm.StringFen()
+	if f != want {
+		return // decided elsewhere (C02 / position oracle)
+	}
+	pf, err := position.NewPositionFen(f)
+	if err != nil || pf == nil {
+		res.addViolation("C16", "fen_output_unparsable", fmt.Sprintf("position after %v from %q prints %q which is rejected: %v", ms, base, f, err))
+		return
+	}
+	res.count("fen_played_vs_parsed", 1)
+	if pf.ZobristKey() != pm.ZobristKey() {
+		res.addViolation("C16", "fen_roundtrip_changes_key", fmt.Sprintf("the position reached by %v from %q prints %q; parsed back it is a position with another hash key (%d vs %d)", ms, base, f, uint64(pf.ZobristKey()), uint64(pm.ZobristKey())))
 	}
 }
